@@ -118,6 +118,13 @@ RoutingKey(values, idx) ==
                              IN G(i + 1, acc \o Len16BE(Len(e)) \o e \o <<0>>)
        IN G(1, <<>>)
 
+\* A statement need not bind every partition-key column: `WHERE tenant = ? AND name = 'bob'` binds one of
+\* two, the other is a literal the driver never sees.  idx[i] = 0 says that the i-th partition-key column is
+\* not bound by a marker.  The key cannot be known then: the driver must report NO routing key (empty, no
+\* error) - a key made of the bound subset belongs to another partition.
+PartiallyBound(idx) == \E i \in 1 .. Len(idx) : idx[i] = 0
+RoutingKeyOf(values, idx) == IF PartiallyBound(idx) THEN <<>> ELSE RoutingKey(values, idx)
+
 \* ---- a statement object that is used more than once
 \* A Query is bound (Bind replaces ALL bound values), asked for its routing key, re-bound, asked again;
 \* an explicit routing key (Query.RoutingKey) overrides the computed one until it is cleared.  The routing
@@ -197,4 +204,6 @@ ASSUME LET A == <<[t |-> "blob", n |-> 0, b |-> <<1>>]>>
             = << <<1>>, <<2, 3>>, <<9>>, <<2, 3>> >>
        /\ BatchSeqExpected(<<st("get", <<>>, <<>>), st("add", A, <<>>), st("get", <<>>, <<>>), st("add", B, <<>>), st("get", <<>>, <<>>)>>)
             = << <<>>, <<1>>, <<1>> >>
+ASSUME RoutingKeyOf(<<[t |-> "blob", n |-> 0, b |-> <<1, 2>>]>>, <<1, 0>>) = <<>>
+       /\ RoutingKeyOf(<<[t |-> "blob", n |-> 0, b |-> <<1, 2>>]>>, <<1>>) = <<1, 2>>
 =============================================================================
